@@ -293,7 +293,7 @@ impl<V> Item<V> {
 pub(crate) struct CacheProcessor<V, U, CB, S> {
     pub(crate) insert_buf_rx: Receiver<Item<V>>,
     pub(crate) stop_rx: Receiver<()>,
-    pub(crate) clear_rx: UnboundedReceiver<()>,
+    pub(crate) clear_rx: UnboundedReceiver<WaitSignal>,
     pub(crate) metrics: Arc<Metrics>,
     pub(crate) store: Arc<ShardedMap<V, U, S, S>>,
     pub(crate) policy: Arc<LFUPolicy<S>>,
@@ -353,7 +353,7 @@ pub struct Cache<
 
     pub(crate) stop_tx: Sender<()>,
 
-    pub(crate) clear_tx: UnboundedSender<()>,
+    pub(crate) clear_tx: UnboundedSender<WaitSignal>,
 
     pub(crate) callback: Arc<CB>,
 
@@ -423,15 +423,20 @@ where
             return Ok(());
         }
 
-        // stop the process item thread.
-        self.clear_tx.send(()).map_err(|e| {
+        // The processor empties the insert buffer, the policy, the store and the metrics between
+        // two items, and releases the signal when it is done: whatever is inserted after `clear`
+        // has returned is kept, and no item is applied half-way through the clear.
+        let wg = WaitGroup::new();
+        self.clear_tx.send(WaitSignal(wg.add(1))).map_err(|e| {
             CacheError::SendError(format!("fail to send clear signal to working thread {}", e))
         })?;
 
-        self.policy.clear();
-        self.store.clear();
-        self.metrics.clear();
-
+        // A request that is enqueued after the processor has drained the channel on its way out
+        // is never looked at, but then the cache is already marked closed.
+        if self.is_closed.load(Ordering::SeqCst) {
+            return Ok(());
+        }
+        wg.wait();
         Ok(())
     }
 
@@ -615,7 +620,7 @@ where
         policy: Arc<LFUPolicy<S>>,
         insert_buf_rx: Receiver<Item<V>>,
         stop_rx: Receiver<()>,
-        clear_rx: UnboundedReceiver<()>,
+        clear_rx: UnboundedReceiver<WaitSignal>,
         metrics: Arc<Metrics>,
         callback: Arc<CB>,
     ) -> Self {
@@ -647,8 +652,8 @@ where
                         tracing::error!("fail to handle insert event: {}", e);
                     }
                 },
-                recv(self.clear_rx) -> _ => {
-                    if let Err(e) = self.handle_clear_event() {
+                recv(self.clear_rx) -> msg => {
+                    if let Err(e) = self.handle_clear_event(msg) {
                         tracing::error!("fail to handle clear event: {}", e);
                     }
                 },
@@ -661,6 +666,7 @@ where
                     // The channel keeps what is queued for as long as a cache handle exists:
                     // drop it now so that buffered `Wait` markers release their waiters.
                     while self.insert_buf_rx.try_recv().is_ok() {}
+                    while self.clear_rx.try_recv().is_ok() {}
                     return Ok(());
                 },
             }
@@ -668,8 +674,19 @@ where
     }
 
     #[inline]
-    pub(crate) fn handle_clear_event(&mut self) -> Result<(), CacheError> {
-        CacheCleaner::new(self).clean()
+    pub(crate) fn handle_clear_event(
+        &mut self,
+        msg: Result<WaitSignal, RecvError>,
+    ) -> Result<(), CacheError> {
+        // Dropping the signal, on the error paths too, releases the caller of `clear`.
+        let _signal = msg.map_err(|e| {
+            CacheError::RecvError(format!("fail to receive msg from clear channel: {}", e))
+        })?;
+        CacheCleaner::new(self).clean()?;
+        self.policy.clear();
+        self.store.clear();
+        self.metrics.clear();
+        Ok(())
     }
 
     #[inline]
